@@ -396,7 +396,68 @@ def _config_task(_):
     return {"evals": evals, "nontriv": evals, "viols": viols, "key": "~config", "skipped": False}
 
 
+def _pair_task(t):
+    """Two settings mentioned by two different sources: each gets its own value, nothing else moves."""
+    _tag, a_name, b_names = t
+    st = _setup()
+    d = st["dir"]
+    from gunicorn.config import Config
+    settings = Config().settings
+    callables = {n for n, x in settings.items() if getattr(x.validator, "__name__", "") in ("_validate_callable", "validate_post_request")}
+    dflt = defaults()
+    dflt["default_proc_name"] = "app:app"
+    ta = value_table(settings[a_name], d)
+    evals = 0
+    viols = {}
+    if ta is None:
+        return {"evals": 0, "nontriv": 0, "viols": [], "key": "~pair:" + a_name, "skipped": False}
+    for b_name in b_names:
+        if b_name == a_name:
+            continue
+        tb = value_table(settings[b_name], d)
+        if tb is None or {a_name, b_name} & {"paste", "chdir"} and {a_name, b_name} & {"default_proc_name", "logconfig"}:
+            continue
+        for (sa, sb) in (("file", "env"), ("fw", "file"), ("env", "cli"), ("cli", "fw")):
+            if sa not in sources_for(settings[a_name]) or sb not in sources_for(settings[b_name]):
+                continue
+            ka = build_sources(settings[a_name], {sa: ta[0][0]}, callables)
+            kb = build_sources(settings[b_name], {sb: tb[0][1]}, callables)
+            if ka is None or kb is None:
+                continue
+            kw = {}
+            for k_, v_ in list(ka.items()) + list(kb.items()):
+                if k_ in kw and k_ in ("cli", "env"):
+                    kw[k_] = kw[k_] + v_
+                elif k_ in kw and k_ == "fw":
+                    kw[k_] = dict(kw[k_], **v_)
+                elif k_ in kw and k_ == "file":
+                    kw[k_] = kw[k_] + v_
+                else:
+                    kw[k_] = v_
+            evals += 1
+            status, snap = load(**kw)
+            if status != "ok":
+                viols.setdefault("pair:load-failed", violation("pair:load-failed", "%s via %s and %s via %s: %s" % (a_name, sa, b_name, sb, snap), {"pair": [a_name, b_name]}))
+                continue
+            wa, wb = normalise(a_name, ta[0][0], callables), normalise(b_name, tb[0][1], callables)
+            if snap[a_name] != wa or snap[b_name] != wb:
+                viols.setdefault("pair:values-interfere", violation("pair:values-interfere", "%s=%r via %s and %s=%r via %s: effective %r / %r" % (
+                    a_name, ta[0][0], sa, b_name, tb[0][1], sb, snap[a_name], snap[b_name]), {"pair": [a_name, b_name]}))
+            for other, v in snap.items():
+                if other in (a_name, b_name, "config"):
+                    continue
+                if "paste" in (a_name, b_name) and other in ("default_proc_name", "logconfig"):
+                    continue
+                if v != dflt[other]:
+                    viols.setdefault("pair:unmentioned-setting-changed", violation("pair:unmentioned-setting-changed", "%s via %s and %s via %s: %s became %r" % (
+                        a_name, sa, b_name, sb, other, v), {"pair": [a_name, b_name]}))
+                    break
+    return {"evals": evals, "nontriv": evals, "viols": list(viols.values()), "key": "~pair:" + a_name, "skipped": False}
+
+
 def _task(t):
+    if isinstance(t, tuple) and t[0] == "~pair":
+        return _pair_task(t)
     if t == "~config":
         return _config_task(t)
     return _setting_task(t)
@@ -413,8 +474,12 @@ def setting_names():
 def run(ctx):
     names = setting_names()
     tasks = names + ["~config"]
+    # pairs of settings mentioned by two different sources (thorough: all ordered pairs; quick: each setting with 6 partners)
+    for i, a in enumerate(names):
+        partners = names if ctx.thorough else [names[(i + j * 13 + 1) % len(names)] for j in range(6)]
+        tasks.append(("~pair", a, partners))
     random.Random(ctx.seed).shuffle(tasks)
-    res = par.pmap(_task, tasks)
+    res = par.pmap(_task, tasks, chunksize=1)
     res.sort(key=lambda r: r["key"])
     viols = [v for r in res for v in r["viols"]]
     skipped = [r["key"] for r in res if r.get("skipped")]
@@ -436,5 +501,8 @@ def run(ctx):
 
 
 def replay(case):
+    if "pair" in case:
+        r = _pair_task(("~pair", case["pair"][0], [case["pair"][1]]))
+        return r["viols"][0] if r["viols"] else None
     r = _task(case.get("setting", "~config"))
     return r["viols"][0] if r["viols"] else None
